@@ -14,7 +14,7 @@ for f in glob.glob(os.path.join(src, "*")):
     if b in ("patch.diff", "run.txt") or b.startswith("demo"):
         shutil.copy(f, dst)
 m = json.load(open(os.path.join(src, "meta.json")))
-m["origin"] = "independent sub-agent (later round (3rd to 7th), given the one-line summaries of earlier changes to avoid), property text + scratch worktree only"
+m["origin"] = os.environ.get("SEEDED_ORIGIN", "independent sub-agent (later round (3rd to 7th), given the one-line summaries of earlier changes to avoid), property text + scratch worktree only")
 m["what_i_ran"] = ["tools/scratch_eval.sh <name> seeded/%s-%d/patch.diff %s" % (prop, n, caught_by.replace(",", " ").replace(" quick", ""))]
 m["caught_by"] = [c for c in caught_by.split(",") if c]
 m["initially"] = verdict
